@@ -1,8 +1,111 @@
-/- line-protocol handlers for the C20 models (stub: nothing modelled yet) -/
+/- line-protocol handlers for the C20 kernels (Model/Checked.lean).
+Every response is `trap` (the kernel is `none`) or the kernel's value. -/
 import FontVerif.Model.Base
+import FontVerif.Model.Checked
 namespace FontVerif.Drv.C20
-open FontVerif
+open FontVerif FontVerif.Checked
 
-def handle (_cmd : String) (_args : List String) : Option String := none
+def optInt : Option Int → String
+  | none => "trap"
+  | some v => toString v
+
+def optOptInt : Option (Option Int) → String
+  | none => "trap"
+  | some none => "none"
+  | some (some v) => toString v
+
+def tyOf (bits : Int) : Option IntTy :=
+  if bits = 16 then some i16 else if bits = 32 then some i32 else none
+
+/-- split `n` leading items off a list -/
+def takeN (n : Int) (xs : List Int) : Option (List Int × List Int) :=
+  if n < 0 then none else
+  let t := xs.take n.toNat
+  if t.length < n.toNat then none else some (t, xs.drop n.toNat)
+
+def pairs : List Int → Option (List (Int × Int))
+  | [] => some []
+  | a :: b :: rest => (pairs rest).map ((a, b) :: ·)
+  | _ => none
+
+def triples : List Int → Option (List (Int × Int × Int))
+  | [] => some []
+  | a :: b :: c :: rest => (triples rest).map ((a, b, c) :: ·)
+  | _ => none
+
+/-- `nCols (nAxes (s p e)* delta)*` -/
+def parseCols : Nat → List Int → Option (List (List (Int × Int × Int) × Int) × List Int)
+  | 0, xs => some ([], xs)
+  | k + 1, nAxes :: xs => do
+    let (ax, r) ← takeN (3 * nAxes) xs
+    let axes ← triples ax
+    match r with
+    | d :: r' => do
+      let (cols, r'') ← parseCols k r'
+      pure ((axes, d) :: cols, r'')
+    | [] => none
+  | _, _ => none
+
+def handle (cmd : String) (args : List String) : Option String :=
+  match parseInts? args with
+  | none => none
+  | some xs =>
+    match cmd, xs with
+    | "fx.round", [b, f, a] => (tyOf b).map fun t => optInt (fxRound t f.toNat a)
+    | "fx.abs", [b, a] => (tyOf b).map fun t => optInt (fxAbs t a)
+    | "fx.floor", [b, f, a] => (tyOf b).map fun t => optInt (fxFloor t f.toNat a)
+    | "fx.fract", [b, f, a] => (tyOf b).map fun t => optInt (fxFract t f.toNat a)
+    | "fx.neg", [a] => some (optInt (fxNeg a))
+    | "fx.add", [a, b] => some (toString (fxAdd a b))
+    | "fx.sub", [a, b] => some (toString (fxSub a b))
+    | "fx.mul", [a, b] => some (optInt (fxMul a b))
+    | "fx.div", [a, b] => some (optInt (fxDiv a b))
+    | "fx.muldiv", [s, a, b] => some (optInt (fxMulDiv s a b))
+    | "fx.fromi32", [a] => some (optInt (fxFromI32 a))
+    | "fx.toi32", [a] => some (optInt (fxToI32 a))
+    | "fx.tof26", [a] => some (optInt (fxToF26Dot6 a))
+    | "fx.tof2", [a] => some (optInt (fxToF2Dot14 a))
+    | "f26.fromi32", [a] => some (optInt (f26FromI32 a))
+    | "f26.toi32", [a] => some (optInt (f26ToI32 a))
+    | "f2.tofixed", [a] => some (optInt (f2ToFixed a))
+    | "h.floor", [a] => some (optInt (hFloor a))
+    | "h.round", [a] => some (optInt (hRound a))
+    | "h.ceil", [a] => some (optInt (hCeil a))
+    | "h.roundpad", [a, n] => some (optInt (hRoundPad a n))
+    | "h.mul", [a, b] => some (optInt (hMul a b))
+    | "h.div", [a, b] => some (optInt (hDiv a b))
+    | "h.muldiv", [a, b, c] => some (optInt (hMulDiv a b c))
+    | "h.mdnr", [a, b, c] => some (optInt (hMulDivNoRound a b c))
+    | "h.mul14", [a, b] => some (optInt (hMul14 a b))
+    | "rs.round", [m, t, p, per, d] => some (optInt (roundStateRound m t p per d))
+    | "avar.apply", coord :: rest => (pairs rest).map fun ms => optInt (avarApply ms coord)
+    | "region.scalar", n :: rest => do
+      let (ax, coords) ← takeN (3 * n) rest
+      let axes ← triples ax
+      pure (optInt (regionScalar axes coords))
+    | "tuple.scalar", n :: rest => do
+      let (peaks, r) ← takeN n rest
+      match r with
+      | 0 :: coords => pure (optOptInt (tupleScalar peaks none coords))
+      | 1 :: r' => do
+        let (starts, r'') ← takeN n r'
+        let (ends, coords) ← takeN n r''
+        pure (optOptInt (tupleScalar peaks (some (starts, ends)) coords))
+      | _ => none
+    | "ivs.delta", nc :: rest => do
+      let (coords, r) ← takeN nc rest
+      match r with
+      | k :: r' => do
+        let (cols, left) ← parseCols k.toNat r'
+        if left.isEmpty ∧ k ≥ 0 then pure (optInt (computeDelta cols coords)) else none
+      | [] => none
+    | "ivs.itemdelta", nc :: rest => do
+      let (coords, r) ← takeN nc rest
+      match r with
+      | k :: r' => do
+        let (cols, left) ← parseCols k.toNat r'
+        if left.isEmpty ∧ k ≥ 0 then pure (optInt (itemDelta cols coords)) else none
+      | [] => none
+    | _, _ => none
 
 end FontVerif.Drv.C20
